@@ -24,11 +24,19 @@ def main(argv):
         import json
 
         with open(argv[1]) as f:
-            hs = json.load(f).get("hashseed")
-        if hs is not None and os.environ.get("PYTHONHASHSEED") != str(hs):
-            # re-exec under the interpreter hash seed the violation was found with
-            env2 = dict(os.environ, PYTHONHASHSEED=str(hs))
-            os.execve(sys.executable, [sys.executable, "-X", "faulthandler", "-m", "sim.main"] + argv, env2)
+            rep = json.load(f)
+        hs = rep.get("hashseed")
+        opt = int(rep.get("optimize") or 0)
+        if (hs is not None and os.environ.get("PYTHONHASHSEED") != str(hs)) or opt != sys.flags.optimize:
+            # re-exec under the interpreter hash seed / optimisation level of the finding run
+            env2 = dict(os.environ)
+            if hs is not None:
+                env2["PYTHONHASHSEED"] = str(hs)
+            flags = ["-O"] * opt
+            if os.environ.get("VERIF_REEXEC") == "1":
+                raise RuntimeError("HARNESS-ERROR: replay re-exec loop")
+            env2["VERIF_REEXEC"] = "1"
+            os.execve(sys.executable, [sys.executable] + flags + ["-X", "faulthandler", "-m", "sim.main"] + argv, env2)
         return runner.replay(argv[1])
     if cmd == "digest":
         from . import selftest
@@ -44,13 +52,21 @@ def main(argv):
     ap.add_argument("--runs", type=int, default=None)
     ap.add_argument("--workers", type=int, default=None)
     ap.add_argument("--seed", type=int, default=None)
+    ap.add_argument("--first", type=int, default=0, help=argparse.SUPPRESS)
+    ap.add_argument("--opt-slice", action="store_true", help=argparse.SUPPRESS)
     a = ap.parse_args(argv)
     seed = a.seed if a.seed is not None else int(os.environ.get("VERIF_SEED", "0") or 0)
     from . import sanity
 
     sanity.startup_checks()
     try:
-        return runner.run_property(a.prop, a.tier, seed, runs=a.runs, workers=a.workers)
+        if a.opt_slice:
+            return runner.run_property(a.prop, a.tier, seed, runs=a.runs, workers=a.workers, first=a.first)
+        # a slice of further seeded runs under `python -O` (assert statements stripped,
+        # __debug__ false): the properties are not allowed to depend on that either
+        opt = runner.optimized_slice(a.prop, a.tier, seed, a.runs, a.workers)
+        rc = runner.run_property(a.prop, a.tier, seed, runs=a.runs, workers=a.workers, extra={"optimized_slice": opt})
+        return max(rc, opt.get("rc", 0)) if opt.get("rc", 0) in (0, 1) else 2
     except runner.HarnessError as e:
         print(f"HARNESS-ERROR: {e}")
         return 2
